@@ -60,6 +60,21 @@ def grid(ctx):
                     judge_probe(ctx, "std", config, op, m, t, name, v, exp, r, wit, skip_decode=not be_decode_judged(t))
                     res.count("be_grid_probes")
                 os.unlink(exe)
+            # emulated big-endian HOST (be_emu): nothing reads storage natively any more, so every decode is judged, sign step included
+            config = "emu-BE-O1" if ctx.quick else ["emu-BE-O0", "emu-BE-O1", "emu-BE-O2"][(offset + chunk) % 3]
+            try:
+                exe = sut_c.build(top, root, config)
+            except sut_c.BuildError as e:
+                res.inconclusive.append(f"emulated big-endian build of the probe file failed: {e} {e.log[-300:]}"[:600])
+            else:
+                sess = ccommon.CSession(exe, dg, config, "std")
+                if ccommon.selftest_driver(res, sess, pairs[2][0], None, wit):
+                    for (op, m, t, name, v, exp), r in zip(meta, sess.run(reqs, timeout=900)):
+                        judge_probe(ctx, "std", config, op, m, t, name, v, exp, r, wit)
+                        res.count("emu_be_grid_probes")
+                        if op == "D" and not be_decode_judged(t):
+                            res.count("emu_be_grid_signed_nonstandard_decodes_judged")
+                os.unlink(exe)
             # default (little-endian) build must agree on native storage (same wire) ...
             exe = sut_c.build(top, root, "gcc-O0-sep")
             for (op, m, t, name, v, exp), r in zip(meta, ccommon.CSession(exe, dg, "gcc-O0-sep", "std").run(reqs, timeout=900)):
@@ -119,6 +134,115 @@ def whole_messages(ctx, n_cases, n_values):
                 os.unlink(exe)
         finally:
             shutil.rmtree(d, ignore_errors=True)
+
+
+def emulated_host(ctx, n_cases, n_values):
+    """Any generated schema (every signed width, extensible messages and arrays, packing, imports) through the real runtime and
+    generated code on an emulated big-endian host: standard mode, and for traditional schemas -O `--endian both` (the generated
+    preprocessor test decides) and `--endian big`.  Controls: the same memory model with the code told it is little-endian,
+    and the `--endian little` statements, must produce wrong bytes for multi-byte fields."""
+    res = ctx.res
+    for k in range(n_cases):
+        if ctx.out_of_time():
+            break
+        case_id = ctx.shard + k * ctx.nshards
+        rng = ctx.rng("emucase", case_id)
+        if ctx.replay is not None and ctx.replay["witness"].get("part") == "emulated-host":
+            case_id = ctx.replay["witness"]["case"]
+            rng = __import__("random").Random(f"{ctx.replay['seed']}:{ctx.prop}:{ctx.replay['witness']['shard']}:emucase:{case_id}")
+        cfg = ccommon.cfg_for_case(rng, case_id, traditional=(case_id % 2 == 0))
+        cfg.msg_bits = min(cfg.msg_bits, 800)
+        cfg.big_caps = False
+        root = gen.gen_schema(rng, cfg)
+        if case_id % 3 == 1:
+            ccommon.add_special_shapes(root, rng)
+        top = ctx.casedir(f"e{case_id}")
+        wit = {"case": case_id, "shard": ctx.shard, "part": "emulated-host"}
+        try:
+            traditional = not ccommon.root_has_ext(root)
+            try:
+                paths = __import__("vlib.emit", fromlist=["write_schema"]).write_schema(root, top, rng=rng)
+                dstd = os.path.join(top, "std")
+                sut_compiler.compile_schema(root, top, ["c"], outdir=dstd, paths=paths)
+                dirs = {}
+                if traditional:
+                    for endian in ("big", "both", "little"):
+                        dirs[endian] = os.path.join(top, "opt-" + endian)
+                        sut_compiler.compile_schema(root, top, ["c"], outdir=dirs[endian], optimize=True, endian=endian, paths=paths)
+            except Exception as e:
+                harness.compile_failed(res, e, wit)
+                continue
+            wit["schema"] = pycommon.describe(root, paths)
+            dg = sut_c.DriverGen(root)
+            dgo = sut_c.DriverGen(root, with_json=False)
+            reqs, meta = [], []
+            for m in dg.messages:
+                for name, v in ccommon.basis_values(m, rng, n_values, max_bits=400):
+                    exp = ref.encode(m, v)
+                    reqs.append(("E", m, ref.leaf_values(m, v)))
+                    meta.append({"kind": "E", "m": m, "v": v, "exp": exp, "basis": name})
+                    reqs.append(("D", m, exp))
+                    meta.append({"kind": "D", "m": m, "v": v, "exp": exp, "basis": name})
+            if not reqs:
+                continue
+            res.case(gen.is_nontrivial(gen.schema_signature(root)), wit["schema"])
+            res.sample({"schema": wit["schema"]}, 1)
+            for it in (it for m in dg.messages for it in ref.leaves(m)):
+                if it.signed and it.width not in (8, 16, 32, 64):
+                    res.count("emu_signed_nonstandard_leaves")
+            if not traditional:
+                res.count("emu_extensible_schemas")
+            wide = any(it.width > 8 for m in dg.messages for it in ref.leaves(m))
+            config = "emu-BE-O1" if ctx.quick else ["emu-BE-O0", "emu-BE-O1", "emu-BE-O2"][case_id % 3]
+            try:
+                exe = sut_c.build(dstd, root, config)
+            except sut_c.BuildError as e:
+                if "emulation-unsupported" in str(e):
+                    res.inconclusive.append(f"emulation cannot represent the generated code: {e}"[:300])
+                else:
+                    res.count("skipped_build_error")
+                    res.observe("build_error_classes", ccommon.classify_build_error(e.log))
+                continue
+            sess = ccommon.CSession(exe, dg, config, "std")
+            if not ccommon.selftest_driver(res, sess, dg.messages[0], rng, wit):
+                continue
+            res.count(f"builds:{config}:std")
+            for mt, r in zip(meta, sess.run(reqs)):
+                res.count("emu_be_std_calls")
+                ccommon.judge_std_reply(ctx, mt, r, config, {"wire": True}, wit)
+            os.unlink(exe)
+            if traditional:
+                for vname in ("both", "big"):
+                    try:
+                        exe = sut_c.build(dirs[vname], root, config, optimize=True, driver_src=dgo.source())
+                    except sut_c.BuildError as e:
+                        res.count("skipped_build_error")
+                        continue
+                    res.count(f"builds:{config}:opt-{vname}")
+                    sess = ccommon.CSession(exe, dgo, config, "opt-" + vname)
+                    for mt, r in zip(meta, sess.run(reqs)):
+                        res.count(f"emu_be_opt_calls:{vname}")
+                        ccommon.judge_opt_reply(ctx, mt, r, None, vname + "@emulated-big-endian-host", config, {"same": True}, wit)
+                    os.unlink(exe)
+            # positive controls (counted, a run where they never fail is inconclusive: the emulation would not be big-endian)
+            if wide and k < 2:
+                enc = [(rq, mt) for rq, mt in zip(reqs, meta) if mt["kind"] == "E"]
+                exe = sut_c.build(dstd, root, "emu-BE-control-LE-code")
+                rs = ccommon.CSession(exe, dg, "control", "std").run([rq for rq, _ in enc])
+                res.count("positive_control_emulated_le_code_wrong_wire", sum(1 for (rq, mt), r in zip(enc, rs) if r.status != "OK" or r.payload(1) != mt["exp"].hex()))
+                os.unlink(exe)
+                if traditional:
+                    exe = sut_c.build(dirs["little"], root, config, optimize=True, driver_src=dgo.source())
+                    rs = ccommon.CSession(exe, dgo, "control", "opt-little").run([rq for rq, _ in enc])
+                    res.count("positive_control_emulated_opt_little_wrong_wire", sum(1 for (rq, mt), r in zip(enc, rs) if r.status != "OK" or r.payload(1) != mt["exp"].hex()))
+                    os.unlink(exe)
+        finally:
+            shutil.rmtree(top, ignore_errors=True)
+        if ctx.replay is not None and ctx.replay["witness"].get("part") == "emulated-host":
+            break
+    for a, b in sut_c.EMU_STATS.items():
+        res.count("emu_rewrite:" + a, b)
+    sut_c.EMU_STATS.clear()
 
 
 def access_width(ctx, n_cases):
@@ -237,6 +361,8 @@ def worker(ctx):
         ctx.set_budget(40)
         whole_messages(ctx, ctx.per_shard(48), 4)
         ctx.set_budget(60)
+        emulated_host(ctx, ctx.per_shard(48), 4)
+        ctx.set_budget(60)
         access_width(ctx, ctx.per_shard(16))
         ctx.set_budget(90)
         ccommon.run_opt_cases(ctx, ctx.per_shard(16), 4, {"same": True},
@@ -246,6 +372,8 @@ def worker(ctx):
         grid(ctx)
         ctx.set_budget(600)
         whole_messages(ctx, ctx.per_shard(640), 12)
+        ctx.set_budget(900)
+        emulated_host(ctx, ctx.per_shard(960), 12)
         ctx.set_budget(900)
         access_width(ctx, ctx.per_shard(320))
         ctx.set_budget(1000)
@@ -257,16 +385,25 @@ def worker(ctx):
 if __name__ == "__main__":
     harness.main(
         "C06", "props.C06", worker,
-        rule=("four workloads: (1) the width x offset x position probe grid and (2) generated traditional schemas (signed widths 8/16/32/64) run "
+        rule=("five workloads: (0) an EMULATED BIG-ENDIAN HOST (vlib/be_emu.py: clang -O0 IR of the runtime, the generated code and the driver with every "
+              "16/32/64-bit load, store and constant initializer byte-swapped, preprocessed with __BYTE_ORDER__ == __ORDER_BIG_ENDIAN__ so the code's own "
+              "detection macros choose the path) runs the probe grid and generated schemas of every kind (all signed widths, extensible messages and arrays, "
+              "packing, imports) in standard mode and -O --endian both/big; everything is judged, sign extension and prefixes included; the same memory model with "
+              "little-endian code paths is the positive control; (1) the width x offset x position probe grid and (2) generated traditional schemas (signed widths 8/16/32/64) run "
               "through the runtime built with -DBP_BIG_ENDIAN on storage laid out big-endian by the driver, wire compared with the "
               "reference (and with the default build on native storage), with the default build on big-endian storage as positive control; "
               "(3) valgrind-lackey access traces: wire accesses of the big-endian runtime must be 1 byte wide and struct accesses of the "
               "big-endian -O branch must each cover one whole field (little-endian builds are the control); (4) the -O big-endian branch "
               "(--endian big and both+BP_BIG_ENDIAN) vs little vs reference on a per-bit basis of values; distinct by schema text"),
-        assumptions=["x86-64 host: big-endian behaviour is emulated by laying storage out big-endian; sign extension of non-8/16/32/64 widths and "
+        assumptions=["the emulated big-endian host models memory byte order of 16/32/64-bit integer accesses exactly and nothing else of a real big-endian CPU "
+                     "(alignment traps, ABI, compiler back end); built from clang -O0 IR, native back end at -O0/-O1/-O2",
+                     "older storage-layout emulation (workloads 1-2): big-endian behaviour is emulated by laying storage out big-endian; sign extension of non-8/16/32/64 widths and "
                      "the 16-bit extensible prefix read storage natively and are not judged under that emulation (C14 judges the sign step on the default build)",
                      "access widths are observed at -O0 only (the compiler may merge or split accesses at higher levels)"],
         required_counters=["be_grid_probes", "be_whole_message_calls", "positive_control_functional", "windows:BE", "wire_accesses:BE",
                            "positive_control_wide_wire_accesses_LE", "struct_accesses:big", "struct_accesses:both+BP_BIG_ENDIAN",
-                           "positive_control_partial_field_accesses_little", "opt_calls:big", "opt_calls:both+BP_BIG_ENDIAN"],
+                           "positive_control_partial_field_accesses_little", "opt_calls:big", "opt_calls:both+BP_BIG_ENDIAN",
+                           "emu_be_grid_probes", "emu_be_grid_signed_nonstandard_decodes_judged", "emu_be_std_calls", "emu_extensible_schemas",
+                           "emu_signed_nonstandard_leaves", "emu_be_opt_calls:both", "emu_be_opt_calls:big",
+                           "positive_control_emulated_le_code_wrong_wire", "positive_control_emulated_opt_little_wrong_wire"],
     )
